@@ -235,7 +235,7 @@ func runC05(res *Result, rng *RNG, tier string, outDir string) {
 	res.Rule = "random Datalog programs: 2-5 predicates of arity 0-3 over columns of every constant type (mostly small integers and strings so that joins meet), 0-40 base facts with duplicates, 0-4 rules with 1-3 body predicates, repeated variables, self-joins, recursion (40% of rules derive one of their body predicates), expressions over bound variables; 12% of programs are error-prone (division by a bound variable, ill-typed comparison, unbound head variable), 15% have tight limits. Observed: error class of World.Run, World.Facts() as an ORDERED list, QueryRule results as ordered lists. Non-trivial = at least one derived fact and a rule with a join of width >= 2; distinct by canonical program text."
 	n := 700
 	if tier == "thorough" {
-		n = 12000
+		n = 36000
 	}
 	cf := NewCasesFile("Base Term Expr Datalog Corr")
 	var lines []string
